@@ -159,6 +159,18 @@ def api_events(seed):
     ev["INVALID:dls_reference_tensor_wrong_shape"] = lambda m, f: deep_lift_shap(m, X, references=R[:2], device="cpu")
     ev["INVALID:dls_reference_tensor_wrong_length"] = lambda m, f: deep_lift_shap(m, X, references=R[:, :, :, :5], device="cpu")
     ev["INVALID:dls_randomstate_object"] = lambda m, f: deep_lift_shap(m, X, random_state=numpy.random.RandomState(0), **dls)
+    # dtype different from the model's (the model must not be re-typed), warnings escalated to errors (a fault between the backward
+    # pass and the attribution projection), a target that yields a 2-D output slice
+    ev["INVALID:dls_float32_input_float64_model"] = lambda m, f: deep_lift_shap(m, X.float(), references=R.float(), device="cpu")
+    ev["INVALID:dls_float16_input"] = lambda m, f: deep_lift_shap(m, X.half(), references=R.half(), device="cpu")
+
+    def warn_as_error(m, f):
+        import warnings
+        with warnings.catch_warnings():
+            warnings.simplefilter("error", RuntimeWarning)
+            return deep_lift_shap(m, X, references=R, device="cpu", warning_threshold=-1.0, batch_size=4)
+    ev["INVALID:dls_convergence_warning_as_error"] = warn_as_error
+    ev["INVALID:dls_target_slice"] = lambda m, f: deep_lift_shap(m, X, references=R, device="cpu", target=slice(0, 2))
     ev["INVALID:predict_args_mismatch"] = lambda m, f: predict(m, X, args=(A1[:2],), device="cpu")
     ev["INVALID:ism_bad_args"] = lambda m, f: saturation_mutagenesis(m, X, args=(A1[:1],), device="cpu")
     ev["INVALID:marginalize_motif_too_long"] = lambda m, f: marginalize(m, X, "ACGTACGTACGT", device="cpu")
